@@ -561,3 +561,78 @@ Proof.
   destruct Q as (Q1 & Q2 & (Q3 & Q4 & Q5 & Q6) & Q7 & Q8 & Q9); [repeat split; assumption|].
   subst r2. cbn [negb sector] in Q7, Q8. repeat split; try assumption; try apply Q2.
 Qed.
+
+(* ====================================================================================== *)
+(* property theorems *)
+Definition valid_img (img : list Z) : Prop := len img = CFG_SIZE /\ cells_ok img /\ accept img = true.
+Definition zeroG : list Z := fill GUID_SIZE 0.
+Definition zeroK : list Z := fill AUTHKEY_SIZE 0.
+
+Lemma migrate_valid img : accept img = true -> migrate img = Some (img, false).
+Proof.
+  intros Ha. apply accept_iff in Ha as (Ht & _). apply tag7_split in Ht as (_ & H7).
+  apply migrate_other; rewrite H7; discriminate.
+Qed.
+Lemma take_cfg_len s : len (fc s) = SEC_SIZE -> len (take CFG_SIZE (fc s)) = CFG_SIZE.
+Proof. intros H. rewrite len_take by (vm_compute; discriminate). rewrite H. vm_compute. reflexivity. Qed.
+Lemma cfg_le_sec : CFG_SIZE <= SEC_SIZE. Proof. vm_compute. discriminate. Qed.
+Lemma state_le_sec : STATE_SIZE <= SEC_SIZE. Proof. vm_compute. discriminate. Qed.
+
+(* --- C13_roundtrip: one save/restart cycle and any number of them --- *)
+Definition cycle (chk : bool) (r0 : Z) (s : st) : st :=
+  let '(s1, _, _) := save_cfg chk (cfg s) s in
+  let '(s2, _) := save_state_now chk s1 in
+  let '(s3, _, _) := do_init chk r0 s2 in s3.
+Lemma cycle_spec chk r0 s : quiet s -> valid_img (cfg s) -> len (sta s) = STATE_SIZE -> cells_ok (sta s) ->
+  cfg (cycle chk r0 s) = cfg s /\ sta (cycle chk r0 s) = sta s /\ quiet (cycle chk r0 s) /\
+  take CFG_SIZE (fc (cycle chk r0 s)) = cfg s /\ take STATE_SIZE (fs (cycle chk r0 s)) = sta s.
+Proof.
+  intros Hq (Hl & Hc & Ha) Hsl Hsc. unfold cycle, save_cfg.
+  pose proof (save_sector_quiet chk false (cfg s) s Hq) as Q1.
+  destruct (save_sector chk false (cfg s) s) as [[s1 o1] r1]. destruct Q1 as (_ & Q1 & (R1 & R2 & R3 & R4) & O1 & S1 & _).
+  cbn [negb sector] in O1, S1. unfold save_state_now.
+  assert (Q1' : quiet (set_timer s1 false)) by exact Q1.
+  pose proof (save_sector_quiet chk true (sta s1) (set_timer s1 false) Q1') as Q2.
+  destruct (save_sector chk true (sta s1) (set_timer s1 false)) as [[s2 o2] r2]. destruct Q2 as (_ & Q2 & (T1 & T2 & T3 & T4) & O2 & S2 & _).
+  cbn [negb sector set_timer upd_ram fc fs cfg sta] in O2, S2, T1, T2.
+  assert (Hfc : take CFG_SIZE (fc s2) = cfg s).
+  { rewrite O2, S1. rewrite <- Hl at 1. apply take_written; [assumption|rewrite Hl; apply cfg_le_sec]. }
+  assert (Hfs : take STATE_SIZE (fs s2) = sta s).
+  { rewrite S2, R2. rewrite <- Hsl at 1. apply take_written; [assumption|rewrite Hsl; apply state_le_sec]. }
+  pose proof (do_init_plain chk r0 s2 (cfg s) Hfc (migrate_valid _ Ha) Ha) as P.
+  destruct (do_init chk r0 s2) as [[s3 o3] r3]. destruct P as (P1 & P2 & P3 & P4 & P5 & P6 & P7 & P8 & P9 & P10).
+  destruct Q2 as (Qd & Qf & Qc).
+  split; [exact P1|]. split; [congruence|]. split; [repeat split; congruence|]. split; congruence.
+Qed.
+Fixpoint cycles (chk : bool) (seeds : list Z) (s : st) : st :=
+  match seeds with [] => s | r0 :: t => cycles chk t (cycle chk r0 s) end.
+Lemma C13_roundtrip_thm chk seeds : forall s, quiet s -> valid_img (cfg s) -> len (sta s) = STATE_SIZE -> cells_ok (sta s) ->
+  cfg (cycles chk seeds s) = cfg s /\ sta (cycles chk seeds s) = sta s /\
+  (seeds <> [] -> take CFG_SIZE (fc (cycles chk seeds s)) = cfg s /\ take STATE_SIZE (fs (cycles chk seeds s)) = sta s).
+Proof.
+  induction seeds as [|r0 t IH]; intros s Hq Hv Hl Hc; [repeat split; congruence|].
+  cbn [cycles]. destruct (cycle_spec chk r0 s Hq Hv Hl Hc) as (C1 & C2 & C3 & C4 & C5).
+  destruct (IH (cycle chk r0 s)) as (I1 & I2 & I3); [assumption|rewrite C1; assumption|rewrite C2; assumption|rewrite C2; assumption|].
+  split; [congruence|]. split; [congruence|]. intros _. destruct t as [|r1 t'].
+  - cbn [cycles]. split; assumption.
+  - destruct I3 as (I3 & I4); [discriminate|]. split; congruence.
+Qed.
+
+(* --- C13_commit_only_on_success --- *)
+(* r is the value `1 == supla_esp_cfg_save(&new_cfg)`; by definition of save_sector it is true only if the write returned OK *)
+Lemma C13_commit_thm chk image s : down s = false ->
+  let '(s1, o, r) := do_post chk image s in
+  (r = true -> cfg s1 = merge_undef (cfg s) image) /\ (r = false -> cfg s1 = cfg s) /\
+  sta s1 = sta s /\ fs s1 = fs s /\
+  (chk = true -> r = true -> fc s1 = band_list (fill SEC_SIZE 255) (merge_undef (cfg s) image) /\ down s1 = false).
+Proof.
+  intros Hd. unfold do_post, save_cfg.
+  pose proof (save_sector_frame chk false (merge_undef (cfg s) image) s) as F.
+  pose proof (save_sector_atomic false (merge_undef (cfg s) image) s Hd) as A.
+  destruct (save_sector chk false (merge_undef (cfg s) image) s) as [[s1 o] r]. destruct F as ((F1 & F2 & _) & F3 & _).
+  cbn [negb sector] in F3.
+  destruct r.
+  - split; [reflexivity|]. split; [discriminate|]. split; [exact F2|]. split; [exact F3|].
+    intros -> _. destruct A as (_ & A & _). destruct (A eq_refl) as (A1 & A2). split; assumption.
+  - split; [discriminate|]. split; [intros _; exact F1|]. split; [exact F2|]. split; [exact F3|]. intros _ H. discriminate.
+Qed.
